@@ -3,7 +3,7 @@
 From Coq Require Import List NArith Bool Arith Lia.
 From Coq.Strings Require Import Byte.
 Import ListNotations.
-From OV Require Import Base.Bytes Base.Cases Base.Utf8 Model.Edi.
+From OV Require Import Base.Bytes Base.Cases Base.Utf8 Gen.EdiShape Model.Edi.
 
 (* ---- bytes, prefixes ------------------------------------------------------------------------ *)
 Lemma byte_eqb_eq a b : Byte.eqb a b = true <-> a = b.
@@ -746,13 +746,17 @@ Proof.
   rewrite !Byte.of_to_N in Ho. congruence.
 Qed.
 
+(* the blank runes extracted from runeCountAndHasOnlyCRLF are LF and CR *)
+Lemma blank_rune_spec r : existsb (N.eqb r) edi_blank_runes = (N.eqb r 10 || N.eqb r 13).
+Proof. cbn. rewrite orb_false_r. reflexivity. Qed.
+
 Lemma only_crlf_fuel_non : forall k t, (length t <= k)%nat ->
   (exists b, In b t /\ is_crlf b = false) -> only_crlf_fuel k t = false.
 Proof.
   induction k as [|k IH]; intros t Hk (b & Hin & Hb).
   - destruct t; [destruct Hin|simpl in Hk; lia].
   - destruct t as [|b0 t]; [destruct Hin|]. cbn [only_crlf_fuel].
-    destruct (decode_rune (b0 :: t)) as [r n] eqn:Ed.
+    destruct (decode_rune (b0 :: t)) as [r n] eqn:Ed. rewrite blank_rune_spec.
     destruct (N.eqb r 10 || N.eqb r 13) eqn:Er; [|reflexivity]. cbn [andb].
     assert (r < 64) as Hsmall.
     { apply orb_prop in Er as [Er|Er]; apply N.eqb_eq in Er; lia. }
